@@ -106,7 +106,7 @@ theorem aliasLoop_dropped (E : Engine K) (cx : AliasCtx) : ∀ (es : List (Ex K)
       · rename_i ar2 hmk
         rcases makeAlias_facts hmk with ⟨_, hf⟩ | ⟨_, alg, other, hf⟩
         · simp at hf
-        · obtain ⟨w2, j2, _⟩ := jinv_add hw hj hf
+        · obtain ⟨w2, j2, _⟩ := jinv_add hw hj (Ext.refl ar) hf
           obtain ⟨hb, hadm⟩ := addFacts_admissible hw hf
           obtain ⟨mono, drop⟩ := aliasLoop_dropped E cx es (i + 1) ar2 r h w2 j2
           refine ⟨fun x y hy => mono x y (add_mono hw hb hadm hf.add hy), ?_⟩
@@ -268,7 +268,7 @@ theorem alias_complete {I : Interp K} {E : Engine K} (hE : EngineOk I E) {allowD
     · rename_i l left hel
       simp at h; subst h
       rw [hempty] at hloop hel
-      obtain ⟨hw, hj, _⟩ := aliasLoop_inv E _ m.eqs 0 AR.empty (kept, ar) hloop wf_empty (jinv_empty _)
+      obtain ⟨hw, hj, _⟩ := aliasLoop_inv E _ AR.empty m.eqs 0 AR.empty (kept, ar) hloop wf_empty (jinv_empty _) (Ext.refl _)
       obtain ⟨_, drop⟩ := aliasLoop_dropped E _ m.eqs 0 AR.empty (kept, ar) hloop wf_empty (jinv_empty _)
       obtain ⟨_, hdom⟩ := elimAliases_length AR.empty ar ar.cv _ (l, left) hel hnd
       obtain ⟨s1, s2, s3, s4, s5, s6⟩ := elimAliases_spec AR.empty ar ar.cv _ (l, left) hel hnd
@@ -278,8 +278,10 @@ theorem alias_complete {I : Interp K} {E : Engine K} (hE : EngineOk I E) {allowD
         intro n hn
         obtain ⟨p, hp, rfl⟩ := List.mem_map.1 hn
         obtain ⟨c, hc, a, ha, hpa⟩ := hdom p hp
-        rw [hpa]
-        exact first_pass_eliminated hw hj hc ha
+        have hin := s4 p.1 (List.mem_map_of_mem hp)
+        have hel := first_pass_eliminated hw hj hc ha
+        rw [hpa] at hin ⊢
+        exact ⟨alg_of_not_dne hin hel.1, hel.2⟩
       have halg_disj : ∀ n, n ∈ names m.algs → n ∉ names m.states ++ names m.ders ∧ n ∉ names m.inputs ∧
           n ∉ names m.params ∧ n ∉ names m.consts := by
         intro n hn
